@@ -19,7 +19,6 @@ NOT_APPLICABLE = {
     "C06": "check not built yet in this session (planned, DESIGN.md section 3)",
     "C07": "check not built yet in this session (planned, DESIGN.md section 3)",
     "C11": "check not built yet in this session (planned, DESIGN.md section 3)",
-    "C12": "check not built yet in this session (planned, DESIGN.md section 3)",
     "C14": "check not built yet in this session (planned, DESIGN.md section 3)",
     "C17": "check not built yet in this session (planned, DESIGN.md section 3)",
     "C19": "check not built yet in this session (planned, DESIGN.md section 3)",
@@ -65,5 +64,12 @@ CHECK_META = {
         design_ref="DESIGN.md section 3, C18",
         text="exploration: seeded pattern sets x filesystem histories x interleavings of racing pattern pollers; membership checked after every step by a probe line per file",
         note="sampling; root sandbox (no unreadable files); glob semantics taken from path/filepath",
+    ),
+    "C12": dict(
+        technique="deterministic simulation with fault enumeration: real exporters under the seeded scheduler, failing writers / unrepresentable labels / request cancellation injected at every position, blocked-forever and writer-lock oracles",
+        design_ref="DESIGN.md section 3, C12",
+        text=("fault enumeration: for each generated store every fault position of the chosen exporter family is tried on a fresh store; after each attempt "
+              "a writer must get every metric's lock, no goroutine of the attempt may remain, and the next export must finish"),
+        note="store space sampled; stub connection and ResponseWriter; lock behaviour is simrt's re-implementation of sync.RWMutex semantics (writer preference)",
     ),
 }
